@@ -588,6 +588,49 @@ func runC12Case(cs int64) map[string]interface{} {
 	return res
 }
 
+// confirmSlow re-runs ONE case alone in a fresh process: a time limit that was hit while the machine was busy with other
+// work says nothing about the library.  It reports the case as slow / hanging only when it is so by itself, twice.
+var slowConfirmed bool // once a case was confirmed alone, later time-outs of the run are taken at face value
+
+func confirmSlow(self string, caseSeed int64, limit time.Duration) (hang bool, ms float64) {
+	if slowConfirmed {
+		return true, 0
+	}
+	defer func() {
+		if hang || ms > 5000 {
+			slowConfirmed = true
+		}
+	}()
+	worst := 0.0
+	for try := 0; try < 2; try++ {
+		cmd := exec.Command(self, "c12case", "--case", fmt.Sprint(caseSeed))
+		cmd.Env = append(os.Environ(), "GOMEMLIMIT=2GiB")
+		done := make(chan []byte, 1)
+		go func() { b, _ := cmd.Output(); done <- b }()
+		select {
+		case b := <-done:
+			var m map[string]interface{}
+			json.Unmarshal(b, &m)
+			res, _ := m["result"].(map[string]interface{})
+			t, _ := res["ms"].(float64)
+			if t < 5000 {
+				return false, t // fast when run alone: the limit was hit under load
+			}
+			if t > worst {
+				worst = t
+			}
+		case <-time.After(limit):
+			if cmd.Process != nil {
+				cmd.Process.Kill()
+			}
+			if try == 1 {
+				return true, 0
+			}
+		}
+	}
+	return false, worst
+}
+
 func init() {
 	extraCmds["c12worker"] = func(args []string) {
 		fs := flag.NewFlagSet("c12worker", flag.ExitOnError)
@@ -657,7 +700,11 @@ func init() {
 						o.fail("panic:"+site, fmt.Sprintf("build panics (%v) at %s", m["value"], site), seeds[cur], map[string]interface{}{"files": files, "mutation": label}, m["value"], nil)
 					}
 					if ms, _ := m["ms"].(float64); ms > 5000 {
-						o.fail("slow", fmt.Sprintf("case took %v ms for %v bytes", ms, m["bytes"]), seeds[cur], map[string]interface{}{"files": files}, ms, nil)
+						if hang, ms2 := confirmSlow(self, seeds[cur], 30*time.Second); hang || ms2 > 5000 {
+							o.fail("slow", fmt.Sprintf("case took %v ms (alone: %v ms, hang=%v) for %v bytes", ms, ms2, hang, m["bytes"]), seeds[cur], map[string]interface{}{"files": files}, ms, nil)
+						} else {
+							o.note("slow-under-load-only", seeds[cur])
+						}
 					}
 					from = cur + 1
 					cur = -1
@@ -665,8 +712,12 @@ func init() {
 					cmd.Process.Kill()
 					if cur >= 0 {
 						files, _, label := c12Case(seeds[cur])
-						o.note("hang", seeds[cur])
-						o.fail("hang", "build did not return within the time limit", seeds[cur], map[string]interface{}{"files": files, "mutation": label}, nil, nil)
+						if hang, ms2 := confirmSlow(self, seeds[cur], 30*time.Second); hang || ms2 > 5000 {
+							o.note("hang", seeds[cur])
+							o.fail("hang", fmt.Sprintf("build did not return within the time limit (alone: hang=%v, %v ms)", hang, ms2), seeds[cur], map[string]interface{}{"files": files, "mutation": label}, nil, nil)
+						} else {
+							o.note("time-limit-under-load-only", seeds[cur])
+						}
 						from = cur + 1
 					}
 					done = true
